@@ -379,7 +379,7 @@ const EXT_LKM: &[Ext] = &[
 /// Read-only strings (format strings, paths, commands) and their offsets in .rodata.
 const RO_STRINGS: &[&str] = &[
     "%s", "%d\n", "hello %s %d\n", "/bin/sh", "ls -la /tmp", "/tmp/file.txt", "cat %s", "/", "PATH", "r", "%s/%s.%d", "id=%u name=%s\n", "/var/jail", "%x%x%n",
-    "echo %s", "input: ", "%10s", "license=GPL",
+    "echo %s", "input: ", "%10s", "license=GPL", "%ld\n", "n=%lu %s\n", "%lld %d", "100%% %d",
 ];
 
 fn rodata_bytes() -> (Vec<u8>, Vec<u64>) {
